@@ -259,7 +259,7 @@ prop("C12", NEC + "Clauses: an entry's name range is resolved against the token 
       {"rule": "SCOPE-ORDER", "filter": both(feat("goto"), nottag("typescope", "semantic")), "floor": 24}, {"rule": "ENTRY-GUARD", "floor": 6}, {"rule": "ENTRY-KIND", "floor": 4},
       {"rule": "LOOKUP-NOPANIC", "filter": feat("goto"), "floor": 8}, {"rule": "BUILTIN-SET", "floor": 3}, {"rule": "POS-CONV", "filter": feat("goto"), "floor": 6},
        {"rule": "IDENT-RANGE", "filter": both(tag("identexact"), feat("goto")), "floor": 1},
-      {"rule": "CURSOR-CMP", "filter": feat("goto"), "floor": 0}, {"rule": "POSITION-TOKEN", "filter": tag("prev"), "floor": 1}, {"rule": "INDEX-DOMAIN", "floor": 6},
+      {"rule": "CURSOR-CMP", "filter": feat("goto"), "floor": 0}, {"rule": "POSITION-TOKEN", "filter": tag("prev"), "floor": 0}, {"rule": "INDEX-DOMAIN", "floor": 6},
       {"rule": "FRAME", "filter": files("parser.rs", "utility.rs"), "floor": 3},
       {"rule": "TEXT-SYNC", "filter": tag("utf16"), "floor": 1},
       {"rule": "ERR-FRAME", "filter": tag("entry"), "floor": 3}])
@@ -272,7 +272,7 @@ prop("C13", NEC + "Clauses: the finder walkers descend into every statement/expr
       {"rule": "FRAME", "filter": files("references.rs"), "floor": 56}, {"rule": "SAME-FINDER", "floor": 3},
       {"rule": "SCOPE-ORDER", "filter": both(feat("references"), nottag("typescope", "semantic")), "floor": 10}, {"rule": "IDENT-RANGE", "filter": feat("references"), "floor": 3}, {"rule": "POS-CONV", "filter": feat("references"), "floor": 4},
        {"rule": "BSEARCH-MONO", "floor": 1},
-      {"rule": "CURSOR-CMP", "filter": feat("references"), "floor": 0}, {"rule": "POSITION-TOKEN", "filter": tag("prev"), "floor": 1}, {"rule": "INDEX-DOMAIN", "floor": 6},
+      {"rule": "CURSOR-CMP", "filter": feat("references"), "floor": 0}, {"rule": "POSITION-TOKEN", "filter": tag("prev"), "floor": 0}, {"rule": "INDEX-DOMAIN", "floor": 6},
       {"rule": "FRAME", "filter": files("parser.rs", "utility.rs"), "floor": 3},
       {"rule": "TEXT-SYNC", "filter": tag("utf16"), "floor": 1}])
 
@@ -287,7 +287,7 @@ prop("C14", NEC + "Clauses: the call statement is located with node, origin and 
      [{"rule": "FRAME", "filter": files("signature_help.rs"), "floor": 8},
       {"rule": "TRAVERSE", "filter": tag("calls"), "floor": 18}, {"rule": "SCOPE-ORDER", "filter": both(feat("hover", "signature_help"), nottag("typescope", "semantic")), "floor": 10},
       {"rule": "DISPLAY-FIELDS", "floor": 6}, {"rule": "IDENT-RANGE", "filter": feat("hover", "signature_help"), "floor": 4}, {"rule": "POS-CONV", "filter": feat("hover", "signature_help"), "floor": 4},
-      {"rule": "CURSOR-CMP", "filter": feat("hover", "signature_help"), "floor": 1}, {"rule": "POSITION-TOKEN", "filter": tag("prev"), "floor": 1}, {"rule": "REQ-PURE", "floor": 2}, {"rule": "INDEX-DOMAIN", "floor": 6}, {"rule": "DOC-FLOW", "floor": 1},
+      {"rule": "CURSOR-CMP", "filter": feat("hover", "signature_help"), "floor": 1}, {"rule": "POSITION-TOKEN", "filter": tag("prev"), "floor": 0}, {"rule": "REQ-PURE", "floor": 2}, {"rule": "INDEX-DOMAIN", "floor": 6}, {"rule": "DOC-FLOW", "floor": 1},
       {"rule": "POSITION-TOKEN", "filter": both(tag("nest"), feat("hover", "signature_help")), "floor": 0},
       {"rule": "FRAME", "filter": files("parser.rs", "utility.rs"), "floor": 3},
       {"rule": "TEXT-SYNC", "filter": tag("utf16"), "floor": 1}])
